@@ -475,7 +475,7 @@ Proof.
     assert (Ex : x = str "*").
     { unfold match_name in H1. apply orb_true_iff in H1 as [H1|H1]; apply text_eqb_eq in H1; exact H1. }
     subst x en. rewrite Ee. reflexivity.
-  - apply split_go_none in Ee. subst en. rewrite <- Ee. reflexivity.
+  - apply split_go_none in Ee. rewrite <- Ee, En. reflexivity.
 Qed.
 
 Lemma base_sup_trans a b c : base_sup a b = true -> base_sup b c = true -> base_sup a c = true.
@@ -508,12 +508,12 @@ Lemma sup_pseudo_simple p q :
   simple_pseudo p = true -> sup_pseudo p q = true ->
   p_is_element p = p_is_element q /\ p_name p = p_name q /\ p_arg p = p_arg q.
 Proof.
-  destruct p as [n e a], q as [n' e' a']. unfold simple_pseudo. cbn [p_arg p_name sup_pseudo p_is_element p_el].
-  intros Hs H.
-  destruct (Bool.eqb (e || is_pseudo_element_name n) (e' || is_pseudo_element_name n')) eqn:E1; [|discriminate].
-  destruct (text_eqb n n') eqn:E2; [|discriminate]. cbn [negb orb] in H.
+  destruct p as [n e a], q as [n' e' a']. unfold simple_pseudo. cbn [p_arg p_name sup_pseudo].
+  unfold p_is_element. cbn [p_name p_el]. intros Hs H.
+  destruct (Bool.eqb (e || is_pseudo_element_name n) (e' || is_pseudo_element_name n')) eqn:E1; [|cbn [negb orb] in H; discriminate].
+  destruct (text_eqb n n') eqn:E2; [|cbn [negb orb] in H; discriminate]. cbn [negb orb] in H.
   apply eqb_prop in E1. apply text_eqb_eq in E2. repeat split; try assumption.
-  destruct a as [l|t|]; [discriminate| |]; destruct a' as [l'|t'|];
+  destruct a as [l|t|]; [cbn in Hs; discriminate| |]; destruct a' as [l'|t'|];
     destruct (name_in n [str "not"]); destruct (name_in n [str "current"]); cbn in H; try discriminate;
     try reflexivity; apply text_eqb_eq in H; subst; reflexivity.
 Qed.
@@ -522,7 +522,7 @@ Lemma sup_pseudo_congr p q r :
   p_is_element p = p_is_element q -> p_name p = p_name q -> p_arg p = p_arg q ->
   sup_pseudo p r = sup_pseudo q r.
 Proof.
-  destruct p as [n e a], q as [n' e' a']. cbn [p_is_element p_name p_arg p_el]. intros H1 H2 H3. subst.
+  destruct p as [n e a], q as [n' e' a']. unfold p_is_element. cbn [p_name p_arg p_el]. intros H1 H2 H3. subst.
   cbn [sup_pseudo]. rewrite H1. reflexivity.
 Qed.
 
